@@ -107,6 +107,15 @@ def structured_graphs():
     return gs
 
 
+def fan_graph():
+    """nodes 0..6 carry a self loop each, node 7 points at all of them: with
+    two hosts the edge-balanced split is {0..6} | {7}, so host 1 mirrors
+    seven nodes of host 0 -- the smallest shared list on which Gluon's
+    automatic choice reaches bitsetData (> 4 of >= 6 entries updated)."""
+    return G("fan8", 8, [(i, i) for i in range(7)] +
+             [(7, i) for i in range(7)])
+
+
 def tiny_for_many_hosts():
     """fewer nodes than hosts (used with h=3,4)"""
     return [G("one", 1, []), G("loop1", 1, [(0, 0)]), G("edge2", 2, [(0, 1)]),
@@ -344,10 +353,12 @@ class Runner:
         except Exception:
             pass
 
-    def log_tail(self, s, nbytes=200000):
-        """Diagnosis of an abnormal session end from its log: GALOIS_DIE /
-        exception text, the signal, and the first frames of Open MPI's
-        backtrace that lie in /repo sources (addr2line on the harness)."""
+    def diagnose(self, s, nbytes=300000):
+        """Diagnosis of an abnormal session end from its log -> dict(kind,
+        where, text): GALOIS_DIE / exception text, the signal, and the first
+        frames of Open MPI's backtrace that lie in the checked components
+        (addr2line -i on the harness binary).  `where` is the innermost such
+        function, e.g. 'GingerP::getMaster'."""
         try:
             with open(self.paths(s)[2], "rb") as f:
                 f.seek(0, 2)
@@ -355,36 +366,47 @@ class Runner:
                 f.seek(max(0, sz - nbytes))
                 t = f.read().decode("utf-8", "replace")
         except OSError:
-            return ""
+            return dict(kind="crash", where="", text="")
         out = []
         for l in t.splitlines():
             if ("ERROR" in l or "what()" in l or "terminate called" in l or
                     "Assertion" in l) and l.strip() not in out:
                 out.append(l.strip()[:300])
-        m = re.search(r"Signal: ([A-Za-z ]+\(\d+\))", t)
+        sig = ""
+        m = re.search(r"Signal: ([A-Za-z ]+)\((\d+)\)", t)
         if m:
-            out.append("signal " + m.group(1))
+            sig = m.group(2)
+            out.append("signal %s(%s)" % (m.group(1), sig))
         else:
-            m = re.search(r"exited on signal (\d+ \([^)]*\))", t)
+            m = re.search(r"exited on signal (\d+) \(([^)]*)\)", t)
             if m:
-                out.append("signal " + m.group(1))
-        # first backtrace block only
+                sig = m.group(1)
+                out.append("signal %s (%s)" % (m.group(2), sig))
+        kind = {"6": "crash-abort", "11": "crash-segv", "8": "crash-fpe",
+                "7": "crash-bus"}.get(sig, "crash")
+        where = ""
         blk = t.split("*** End of error message ***")[0]
         addrs = re.findall(re.escape(os.path.basename(self.exe)) +
                            r"\(\+(0x[0-9a-f]+)\)", blk)
         if addrs:
             try:
-                r = subprocess.run(["addr2line", "-f", "-C", "-e", self.exe] +
-                                   addrs[:12], stdout=subprocess.PIPE,
-                                   text=True, timeout=60)
+                r = subprocess.run(["addr2line", "-f", "-C", "-i", "-e",
+                                    self.exe] + addrs[:14],
+                                   stdout=subprocess.PIPE, text=True,
+                                   timeout=120)
                 ls = r.stdout.splitlines()
                 fr = []
                 for i in range(0, len(ls) - 1, 2):
                     fn, loc = ls[i], ls[i + 1]
-                    if "/repo/" in loc and "/substrate/" not in loc and \
-                            "Executor_" not in loc and "ThreadPool" not in loc:
-                        fn = re.sub(r"<.*", "", fn)[:80]
-                        fr.append("%s at %s" % (fn, loc.replace("/repo/", "")))
+                    if not re.search(r"/repo/(libcusp|libgluon|libdist|"
+                                     r"libgalois/include/galois/graphs)/",
+                                     loc):
+                        continue
+                    short = short_fn(fn)
+                    fr.append("%s at %s" % (short,
+                                            loc.replace("/repo/", "")))
+                    if not where:
+                        where = short
                     if len(fr) >= 3:
                         break
                 if fr:
@@ -396,7 +418,7 @@ class Runner:
                     not l.startswith("[") and "STAT" not in l and
                     not l.startswith("---")]
             out = keep[-4:]
-        return " | ".join(out)[-900:]
+        return dict(kind=kind, where=where, text=" | ".join(out)[-900:])
 
     def cleanup(self, s):
         for p in self.paths(s):
@@ -406,31 +428,56 @@ class Runner:
                 pass
 
 
-def run_sessions(runner, sessions, deadline_at, on_result, on_abnormal,
+def short_fn(fn):
+    """'unsigned int GingerP::getMaster<void>(unsigned int, ...)' ->
+    'GingerP::getMaster'; template arguments and parameters dropped."""
+    depth, o = 0, []
+    for ch in fn:
+        if ch == "<":
+            depth += 1
+        elif ch == ">":
+            depth -= 1
+        elif depth == 0:
+            o.append(ch)
+    f = "".join(o)
+    f = f.split("(")[0].strip()
+    f = f.split(" ")[-1]
+    f = f.replace("galois::graphs::", "").replace("galois::runtime::", "")
+    return f[:70]
+
+
+def run_sessions(runner, sessions, deadline_at, on_result, on_end,
                  progress_every=20.0):
     """Run sessions with at most MAXRANKS ranks in flight.  on_result(s, d) for
-    every finished case; on_abnormal(s, kind, info) -> list of new sessions
-    (e.g. the remaining cases) when a session crashed or stalled."""
+    every finished case; on_end(s, ok, diag) -> list of sessions to run next
+    (confirmation runs, the remaining cases of a crashed session, ...);
+    diag = dict(kind, where, text) when the session crashed or stalled."""
     pending = list(sessions)
     running = []
-    completed_all = True
     last_print = time.time()
-    ncases_done = 0
+    ncases_done = [0]
+
+    def drain(s):
+        for d in runner.poll_output(s):
+            if "id" in d:
+                on_result(s, d)
+                ncases_done[0] += 1
+
+    def account(s):
+        gt = runner.group_time.setdefault((s.hosts, s.threads), [0.0, 0])
+        gt[0] += time.time() - s.t_start
+        gt[1] += len(s.done_ids)
+
     while pending or running:
-        now = time.time()
-        if now >= deadline_at:
+        if time.time() >= deadline_at:
             for s in running:
-                for d in runner.poll_output(s):
-                    if "id" in d:
-                        on_result(s, d)
-                        ncases_done += 1
+                drain(s)
                 runner.kill(s)
+                account(s)
                 runner.cleanup(s)
-            completed_all = False
             log("# deadline reached: %d sessions unfinished, %d not started" %
                 (len(running), len(pending)))
             return False
-        # launch
         used = sum(s.hosts for s in running)
         while pending and used + pending[0].hosts <= max(MAXRANKS,
                                                          pending[0].hosts):
@@ -438,45 +485,41 @@ def run_sessions(runner, sessions, deadline_at, on_result, on_abnormal,
             runner.start(s)
             running.append(s)
             used += s.hosts
-        time.sleep(0.05)
+        time.sleep(0.03)
         for s in list(running):
-            for d in runner.poll_output(s):
-                if "id" in d:
-                    on_result(s, d)
-                    ncases_done += 1
+            drain(s)
             rc = s.proc.poll()
             if rc is not None:
-                for d in runner.poll_output(s):
-                    if "id" in d:
-                        on_result(s, d)
-                        ncases_done += 1
+                drain(s)
                 running.remove(s)
                 try:
                     s.logf.close()
                 except Exception:
                     pass
-                runner.group_time.setdefault((s.hosts, s.threads), [0.0, 0])
-                gt = runner.group_time[(s.hosts, s.threads)]
-                gt[0] += time.time() - s.t_start
-                gt[1] += len(s.done_ids)
+                account(s)
                 if s.finished and rc == 0:
-                    runner.cleanup(s)
+                    pending = on_end(s, True, None) + pending
                 else:
-                    info = "mpirun exit %s; %s" % (rc, runner.log_tail(s))
-                    pending = on_abnormal(s, "crash", info) + pending
-                    runner.cleanup(s)
+                    diag = runner.diagnose(s)
+                    diag["text"] = "mpirun exit %s; %s" % (rc, diag["text"])
+                    pending = on_end(s, False, diag) + pending
+                runner.cleanup(s)
             elif time.time() - s.last_progress > runner.stall_s:
-                info = "no progress for %.0fs; %s" % (
-                    time.time() - s.last_progress, runner.log_tail(s))
+                diag = runner.diagnose(s)
+                diag["kind"] = "hang"
+                diag["text"] = "no progress for %.0fs (killed); %s" % (
+                    time.time() - s.last_progress, diag["text"])
                 runner.kill(s)
                 running.remove(s)
-                pending = on_abnormal(s, "hang", info) + pending
+                account(s)
+                pending = on_end(s, False, diag) + pending
                 runner.cleanup(s)
         if time.time() - last_print > progress_every:
             last_print = time.time()
-            log("# t=%.0fs: %d cases done, %d sessions running, %d pending" %
-                (time.time() - T0, ncases_done, len(running), len(pending)))
-    return completed_all
+            log("# t=%.0fs: %d case runs done, %d sessions running, %d "
+                "pending" % (time.time() - T0, ncases_done[0], len(running),
+                             len(pending)))
+    return True
 
 
 # --------------------------------------------------------------------------
@@ -770,6 +813,7 @@ def run_check(a, prop, tier, exe, workdir, deadline_at):
     sigs = {}       # cid -> set of outcome signatures
     enc_total = {}
     unconfirmed = []
+    crash_runs = {}  # cid -> runs that ended in a crash / hang
     next_sid = [len(sessions) + 1000]
 
     def cell_of(cid):
@@ -831,41 +875,80 @@ def run_check(a, prop, tier, exe, workdir, deadline_at):
         return "%s:%s:%s->%s%s" % (pre, c["policy"], c["in"], c["out"],
                                    ":sym" if c["sym"] else "")
 
-    def on_abnormal(s, kind, info):
-        """Session died/stalled: blame the case in flight, confirm alone,
-        continue with the rest."""
+    # crash / hang bookkeeping: key -> dict(confirmed, attempts, inflight,
+    # waiting=[(cid, msg)])
+    abn = {}
+    crashed = set()  # cids whose run ended a session (counted as explored)
+
+    def launch_confirm(key):
+        st = abn[key]
+        if st["confirmed"] or st["inflight"] or st["attempts"] >= 6 or \
+                not st["waiting"]:
+            return []
+        cid = st["waiting"][-1][0]
+        hosts, threads, c = by_cid[cid]
+        ns = Session(next_sid[0], hosts, threads, [(cid, c)], 0)
+        next_sid[0] += 1
+        ns.confirm = key
+        st["inflight"] = True
+        st["attempts"] += 1
+        return [ns]
+
+    def flush_confirmed(key):
+        st = abn[key]
+        for cid, msg in st["waiting"]:
+            note_failure(cid, key, msg)
+        st["waiting"] = []
+
+    def on_end(s, ok, diag):
+        """A session ended.  Crash / stall: blame the case in flight, confirm
+        it by running that case alone (asynchronously, at most a few times per
+        key), continue with the remaining cases."""
+        ckey = getattr(s, "confirm", None)
+        if ckey is not None:
+            st = abn[ckey]
+            st["inflight"] = False
+            if not ok and s.cur is not None:
+                st["confirmed"] = True
+                flush_confirmed(ckey)
+                return []
+            return launch_confirm(ckey)
+        if ok:
+            return []
         new = []
         rest = [(cid, c) for (cid, c) in s.cases if cid not in s.done_ids]
         blamed = s.cur
-        if blamed is None and rest and not s.done_ids and not s.seen_bytes:
-            # died before the first begin marker: machinery (mpirun launch)?
-            blamed = None
         if blamed is not None:
             hosts, threads, c = by_cid[blamed]
-            if kind == "crash":
-                kind = ("crash-abort" if "(6)" in info else
-                        "crash-segv" if "(11)" in info else
-                        "crash-fpe" if "(8)" in info else "crash")
-            key = "%s:%s" % (comp_of(c), kind)
-            log("# session %d (%s) %s in case %s: %s" % (
-                s.sid, "h=%d" % s.hosts, kind, case_name(c, hosts),
-                info[-600:]))
-            ok = confirm_alone(runner, blamed, by_cid, kind, next_sid)
-            if ok:
-                note_failure(blamed, key, "%s of the %d-host session while "
-                             "this case was running (reproduced when run "
-                             "alone); %s" % (kind, hosts, info[-900:]))
+            kind, where = diag["kind"], diag["where"]
+            pre = "cusp" if prop == "C19" else "gluon"
+            if where:
+                key = "%s:%s@%s" % (pre, kind, where)
             else:
-                unconfirmed.append(dict(
-                    key=key, case=case_name(c, hosts),
-                    msg="%s not reproduced when the case was run alone 3 "
-                        "times; %s" % (kind, info[-300:])))
+                key = "%s:%s" % (comp_of(c), kind)
+            msg = ("%s of the %d-host session while case '%s' was running "
+                   "(reproduced when that case is run alone); %s" % (
+                       kind, hosts, case_name(c, hosts), diag["text"]))
+            st = abn.setdefault(key, dict(confirmed=False, attempts=0,
+                                          inflight=False, waiting=[]))
+            if len(st["waiting"]) + len(failures.get(key, [])) < 3:
+                log("# session %d (h=%d) %s in case %s: %s" % (
+                    s.sid, s.hosts, kind, case_name(c, hosts),
+                    diag["text"][-400:]))
+            crashed.add(blamed)
+            crash_runs[blamed] = crash_runs.get(blamed, 0) + 1
+            if st["confirmed"]:
+                note_failure(blamed, key, msg)
+            else:
+                st["waiting"].append((blamed, msg))
+                new += launch_confirm(key)
             rest = [(cid, c2) for (cid, c2) in rest if cid != blamed]
         else:
             log("# session %d ended abnormally outside a case: %s" %
-                (s.sid, info[-300:]))
+                (s.sid, diag["text"][-300:]))
             s.retries = getattr(s, "retries", 0) + 1
             if s.retries > 2:
+                log("# giving up: mpirun sessions do not start")
                 raise SystemExit(2)
         if rest:
             ns = Session(next_sid[0], s.hosts, s.threads, rest, s.rep)
@@ -876,8 +959,14 @@ def run_check(a, prop, tier, exe, workdir, deadline_at):
 
     t_run = time.time()
     completed = run_sessions(runner, sessions, deadline_at, on_result,
-                             on_abnormal)
+                             on_end)
     wall = time.time() - t_run
+    for key, st in abn.items():
+        for cid, msg in st["waiting"]:
+            unconfirmed.append(dict(
+                key=key, case=case_name(by_cid[cid][2], by_cid[cid][0]),
+                msg="not reproduced when the case was run alone (%d "
+                    "attempts); %s" % (st["attempts"], msg[-400:])))
 
     # ---- aggregate ---------------------------------------------------------
     os.makedirs(os.path.join(VERIF, "replays"), exist_ok=True)
@@ -908,7 +997,8 @@ def run_check(a, prop, tier, exe, workdir, deadline_at):
     total_exec = total_inputs = 0
     for nm in sorted(cells):
         cell = cells[nm]
-        full = all(done_runs.get(cid, 0) >= reps for cid in cell["planned"])
+        full = all(done_runs.get(cid, 0) + crash_runs.get(cid, 0) >= reps
+                   for cid in cell["planned"])
         total_exec += cell["executions"]
         total_inputs += len(cell["inputs"])
         oc = dict(
@@ -922,7 +1012,10 @@ def run_check(a, prop, tier, exe, workdir, deadline_at):
                                else cell.get("outcomes_n", 0)),
             inputs_planned=len(cell["planned"]),
             inputs_completed=sum(1 for cid in cell["planned"]
-                                 if done_runs.get(cid, 0) >= reps),
+                                 if done_runs.get(cid, 0) +
+                                 crash_runs.get(cid, 0) >= reps),
+            inputs_crashed=sum(1 for cid in cell["planned"]
+                               if crash_runs.get(cid, 0)),
             repetitions=reps,
             schedules="uncontrolled, %d repetitions" % reps,
             violations=list(cell["viol"].values()),
@@ -971,35 +1064,6 @@ def parse_at(at):
     return d
 
 
-def confirm_alone(runner, cid, by_cid, kind, next_sid, tries=3):
-    hosts, threads, c = by_cid[cid]
-    for _ in range(tries):
-        s = Session(next_sid[0], hosts, threads, [(cid, c)], 0)
-        next_sid[0] += 1
-        runner.start(s)
-        bad = False
-        while True:
-            time.sleep(0.05)
-            runner.poll_output(s)
-            rc = s.proc.poll()
-            if rc is not None:
-                runner.poll_output(s)
-                bad = not (s.finished and rc == 0)
-                break
-            if time.time() - s.last_progress > runner.stall_s:
-                runner.kill(s)
-                bad = True
-                break
-        try:
-            s.logf.close()
-        except Exception:
-            pass
-        runner.cleanup(s)
-        if bad:
-            return True
-    return False
-
-
 # --------------------------------------------------------------------------
 # replay
 # --------------------------------------------------------------------------
@@ -1034,12 +1098,14 @@ def replay(path):
                 if rc is not None:
                     res += [d for d in runner.poll_output(s) if "id" in d]
                     if not (s.finished and rc == 0):
-                        status = "crash (mpirun exit %s) %s" % (
-                            rc, runner.log_tail(s))
+                        dg = runner.diagnose(s)
+                        status = "%s%s (mpirun exit %s) %s" % (
+                            dg["kind"], "@" + dg["where"] if dg["where"]
+                            else "", rc, dg["text"])
                     break
                 if time.time() - s.last_progress > runner.stall_s:
                     runner.kill(s)
-                    status = "hang " + runner.log_tail(s)
+                    status = "hang " + runner.diagnose(s)["text"]
                     break
             try:
                 s.logf.close()
@@ -1049,8 +1115,9 @@ def replay(path):
             keys = {v["key"] for v in viol}
             if status != "ok":
                 kind = status.split()[0]
-                keys.add(doc["key"] if doc["key"].endswith(":" + kind)
-                         else "session:" + kind)
+                if doc["key"].endswith(kind) or \
+                        doc["key"].endswith(":" + kind.split("@")[0]):
+                    keys.add(doc["key"])
                 log("run %d: %s" % (i + 1, status))
             for v in viol:
                 log("run %d: VIOLATION %s\n   %s" % (i + 1, v["key"],
